@@ -14,3 +14,8 @@ package connection
 //@ func (*Conn).readNetConn
 //@   assert-at call ReadFull the-whole-buffer-is-filled-from-the-connection: arg0 == conn.c && arg1 == data
 //@   assert-at return error-of-the-read-is-reported: result == lastresult("ReadFull", 1)
+
+// a frame is refused for its size only when it is larger than the configured limit (the limit itself is allowed, as on
+// the sending side)
+//@ func (*Conn).receiveRoutine
+//@   assert-at call waitStop#2 refused-for-size-only-above-the-limit: size > conn.opts.maxRecvMsgSize
